@@ -136,6 +136,11 @@ class Sim:
             raise StopRun()
         return v
 
+    def inconclusive(self, reason):
+        """The scenario's precondition (not the property) failed: the run decides nothing."""
+        self.k.log("inconclusive", reason)
+        raise SimAbort("precondition", reason)
+
     def make_net(self, **cfg):
         return sockets.SimNet(self.k, self.rng, **cfg)
 
